@@ -42,8 +42,8 @@ Proof.
     - apply find_upd_const.
     - rewrite find_upd_other by assumption. rewrite find_del_other by assumption.
       unfold dset. rewrite !find_upd_other by assumption. reflexivity. }
-  destruct j as [|[|[|[|[|j]]]]]; unfold atomic_write, apply_ops; simpl firstn; simpl fold_left;
-    simpl Nat.leb; simpl andb.
+  destruct j as [|[|[|[|[|j]]]]]; unfold atomic_write, apply_ops; simpl firstn; rewrite ?firstn_nil;
+    simpl fold_left; simpl Nat.leb; simpl andb.
   - reflexivity.
   - unfold dset. now rewrite find_upd_other.
   - unfold dset. now rewrite !find_upd_other.
@@ -133,9 +133,9 @@ Proof.
   split; [split; assumption|].
   intro J. split; [split; assumption|].
   intros g Hg. unfold vfind. rewrite F by apply vk_qpr.
-  assert ((4 <=? j)%nat = true) as -> by (apply Nat.leb_le; lia). simpl.
+  assert ((4 <=? j)%nat = true) as -> by (apply Nat.leb_le; lia). rewrite andb_true_l.
   destruct (N.eqb_spec (fkey (FQpr g)) (fkey (FQpr f))) as [E|E].
-  - now left.
+  - apply fkey_qpr_inj in E. subst g. now left.
   - destruct (P g Hg) as [A|[A|A]].
     + now left.
     + subst g. congruence.
@@ -158,9 +158,9 @@ Proof.
   assert (W' : wfq fs s') by (intros g c; rewrite Q; apply W).
   destruct (4 <=? j)%nat eqn:J.
   - split; [|split; [assumption|]].
-    + unfold vfind. rewrite F by apply vk_info. now rewrite J, N.eqb_refl.
+    + unfold vfind. rewrite F by apply vk_info. rewrite ?J. now rewrite N.eqb_refl.
     + intros g Hg. rewrite Q. destruct (P g Hg) as [A|[]]. exact A.
-  - split; [|assumption]. unfold vfind. rewrite F by apply vk_info. now rewrite J.
+  - split; [|assumption]. unfold vfind. rewrite F by apply vk_info. rewrite ?J. rewrite andb_false_l. exact I.
 Qed.
 
 Lemma firstn_app_le : forall {A} (l1 l2 : list A) k, (k <= length l1)%nat -> firstn k (l1 ++ l2) = firstn k l1.
@@ -174,28 +174,31 @@ Proof. intros. rewrite firstn_app. now rewrite firstn_all2 by assumption. Qed.
 Lemma run_prefix : forall fs todo s k, incl todo fs -> prog fs todo s ->
   let s' := apply_ops s (firstn k (flat_map group todo ++ done_write)) in inv fs s' \/ final fs s'.
 Proof.
-  intros fs todo. induction todo as [|f todo IH]; intros s k Hin P; simpl.
-  - pose proof (done_step fs s k P) as D. simpl in D. destruct (4 <=? k)%nat; [right|left]; exact D.
+  intros fs todo. induction todo as [|f todo IH]; intros s k Hin P; cbv zeta.
+  - change (flat_map group [] ++ done_write) with done_write.
+    pose proof (done_step fs s k P) as D. cbv zeta in D. destruct (4 <=? k)%nat; [right|left]; exact D.
   - assert (Hf : In f fs) by (apply Hin; now left).
+    change (flat_map group (f :: todo)) with (group f ++ flat_map group todo).
     rewrite <- app_assoc.
     destruct (Nat.le_gt_cases k 5) as [L|G].
     + rewrite firstn_app_le by (simpl; lia).
-      left. apply (group_step fs f todo s k Hf P).
+      left. destruct (group_step fs f todo s k Hf P) as [A _]. exact A.
     + rewrite firstn_app_ge by (simpl; lia). rewrite apply_ops_app.
       apply IH.
       * intros x Hx. apply Hin. now right.
-      * pose proof (group_step fs f todo s 5 Hf P) as [_ Q]. simpl in Q. apply Q. lia.
+      * pose proof (group_step fs f todo s 5 Hf P) as [_ Q]. apply Q. lia.
 Qed.
 
 Lemma run_full : forall fs todo s, incl todo fs -> prog fs todo s ->
   final fs (apply_ops s (flat_map group todo ++ done_write)).
 Proof.
-  intros fs todo. induction todo as [|f todo IH]; intros s Hin P; simpl.
-  - pose proof (done_step fs s 5 P) as D. simpl in D. exact D.
+  intros fs todo. induction todo as [|f todo IH]; intros s Hin P.
+  - pose proof (done_step fs s 5 P) as D. exact D.
   - assert (Hf : In f fs) by (apply Hin; now left).
+    change (flat_map group (f :: todo)) with (group f ++ flat_map group todo).
     rewrite <- app_assoc, apply_ops_app. apply IH.
     + intros x Hx. apply Hin. now right.
-    + pose proof (group_step fs f todo s 5 Hf P) as [_ Q]. simpl in Q. apply Q. lia.
+    + pose proof (group_step fs f todo s 5 Hf P) as [_ Q]. apply Q. lia.
 Qed.
 
 Lemma inv_prog : forall fs s, inv fs s -> prog fs (remaining s fs) s.
